@@ -44,7 +44,7 @@ impl Duration {
 impl From<std::time::Duration> for Duration {
     fn from(duration: std::time::Duration) -> Self {
         Duration {
-            nanos: duration.as_nanos() as u64,
+            nanos: u64::try_from(duration.as_nanos()).expect("duration overflow"),
         }
     }
 }
